@@ -1,6 +1,6 @@
 (* C12 — consumer group: the invariant holds in every reachable state; consequences. *)
 From Coq Require Import List Arith Bool Lia.
-From SV Require Import C12.Lts C12.LtsProofs C12.Tac C12.Group C12.GroupProofs C12.GroupInv1 C12.GroupInv2.
+From SV Require Import C12.Lts C12.LtsProofs C12.Tac C12.Group C12.GroupProofs C12.GroupInv_01 C12.GroupInv_02.
 Import ListNotations.
 
 Module GrpS.
